@@ -105,3 +105,73 @@ Proof.
     eapply IH; [exact Hrest|exact Hm|]. eapply Hstep; eassumption.
 Qed.
 
+
+(** The same for a run cut short by a crash: the trace so far is a chain of
+    kernel steps to the filesystem at the crash point, and a monitor that
+    accepts the whole program accepts every such prefix. *)
+Theorem run_crash_steps {A} (p : prog A) : forall w o n,
+  let '(w', _, tr, _) := run_crash p w o n in steps step1 (w_fs w) tr (w_fs w').
+Proof.
+  induction p as [a|c k IH|k IH|wt k IH|m k IH|h i k IH|h i v k IH|k IH|t pl k IH]; intros w o n; cbn [run_crash].
+  - constructor.
+  - destruct (significant c && Nat.eqb n (o_ncalls o))%bool eqn:Hcr; [constructor|].
+    destruct (take_order c o) as [ord orders']. destruct (do_call w o c ord) as [f' r] eqn:Hd.
+    match goal with |- context [run_crash (k r) ?w1 ?o1 n] => specialize (IH r w1 o1 n); destruct (run_crash (k r) w1 o1 n) as [[[w' o''] tr] b] end.
+    cbn [w_fs] in IH. econstructor; [|exact IH].
+    unfold do_call in Hd. cbn [step1].
+    destruct (o_fault o) as [[nf er]|].
+    + destruct (significant c && Nat.eqb nf (o_ncalls o))%bool.
+      * right. exists er. destruct c; injection Hd as <- <-; split; try reflexivity; try (left; reflexivity);
+          right; split; try reflexivity; exists (mkEnv (o_gran o) (o_atime o) ord); reflexivity.
+      * left. exists (mkEnv (o_gran o) (o_atime o) ord). rewrite Hd. split; reflexivity.
+    + left. exists (mkEnv (o_gran o) (o_atime o) ord). rewrite Hd. split; reflexivity.
+  - destruct (pop (kclock (w_fs w)) (o_times o)) as [t ts].
+    match goal with |- context [run_crash (k t) ?w1 ?o1 n] => specialize (IH t w1 o1 n); destruct (run_crash (k t) w1 o1 n) as [[[w' o''] tr] b] end.
+    econstructor; [|exact IH]. reflexivity.
+  - destruct (do_trigger w o wt) as [[fired c'] ds'].
+    match goal with |- context [run_crash (k fired) ?w1 ?o1 n] => specialize (IH fired w1 o1 n); destruct (run_crash (k fired) w1 o1 n) as [[[w' o''] tr] b] end.
+    econstructor; [|exact IH]. reflexivity.
+  - destruct (pop 0%N (o_shards o)) as [x xs].
+    match goal with |- context [run_crash (k ?y) ?w1 ?o1 n] => specialize (IH y w1 o1 n); destruct (run_crash (k y) w1 o1 n) as [[[w' o''] tr] b] end.
+    econstructor; [|exact IH]. reflexivity.
+  - apply IH.
+  - match goal with |- context [run_crash k ?w1 ?o1 n] => specialize (IH w1 o1 n); destruct (run_crash k w1 o1 n) as [[[w' o''] tr] b] end. exact IH.
+  - destruct (pop "tmp"%string (o_fresh o)) as [s ss].
+    match goal with |- context [run_crash (k s) ?w1 ?o1 n] => specialize (IH s w1 o1 n); destruct (run_crash (k s) w1 o1 n) as [[[w' o''] tr] b] end.
+    econstructor; [|exact IH]. reflexivity.
+  - specialize (IH w o n). destruct (run_crash k w o n) as [[[w' o''] tr] b]. econstructor; [|exact IH]. reflexivity.
+Qed.
+
+Theorem wp_run_crash {S A} (step : S -> event -> option S) (p : prog A) : forall (Q : A -> S -> Prop) s w o n,
+  wp step p Q s ->
+  let '(_, _, tr, _) := run_crash p w o n in exists s', mon_run step s tr = Some s'.
+Proof.
+  induction p as [a|c k IH|k IH|wt k IH|m k IH|h i k IH|h i v k IH|k IH|t pl k IH]; intros Q s w o n H; cbn [run_crash wp] in *.
+  - exists s. reflexivity.
+  - destruct (significant c && Nat.eqb n (o_ncalls o))%bool; [exists s; reflexivity|].
+    destruct (take_order c o) as [ord orders']. destruct (do_call w o c ord) as [f' r].
+    specialize (H r). unfold after in H. destruct (step s (EvCall c r)) as [s1|] eqn:Hs; [|contradiction].
+    match goal with |- context [run_crash (k r) ?w1 ?o1 n] => specialize (IH r Q s1 w1 o1 n H); destruct (run_crash (k r) w1 o1 n) as [[[w' o''] tr] b] end.
+    destruct IH as (s' & Hm). exists s'. cbn [mon_run]. rewrite Hs. exact Hm.
+  - destruct (pop (kclock (w_fs w)) (o_times o)) as [t ts].
+    specialize (H t). unfold after in H. destruct (step s (EvNow t)) as [s1|] eqn:Hs; [|contradiction].
+    match goal with |- context [run_crash (k t) ?w1 ?o1 n] => specialize (IH t Q s1 w1 o1 n H); destruct (run_crash (k t) w1 o1 n) as [[[w' o''] tr] b] end.
+    destruct IH as (s' & Hm). exists s'. cbn [mon_run]. rewrite Hs. exact Hm.
+  - destruct (do_trigger w o wt) as [[fired c'] ds'].
+    specialize (H fired). unfold after in H. destruct (step s (EvTrigger wt fired)) as [s1|] eqn:Hs; [|contradiction].
+    match goal with |- context [run_crash (k fired) ?w1 ?o1 n] => specialize (IH fired Q s1 w1 o1 n H); destruct (run_crash (k fired) w1 o1 n) as [[[w' o''] tr] b] end.
+    destruct IH as (s' & Hm). exists s'. cbn [mon_run]. rewrite Hs. exact Hm.
+  - destruct (pop 0%N (o_shards o)) as [x xs].
+    match goal with |- context [run_crash (k ?y) ?w1 ?o1 n] => specialize (H y); unfold after in H; destruct (step s (EvRandShard m y)) as [s1|] eqn:Hs; [|contradiction];
+      specialize (IH y Q s1 w1 o1 n H); destruct (run_crash (k y) w1 o1 n) as [[[w' o''] tr] b] end.
+    destruct IH as (s' & Hm). exists s'. cbn [mon_run]. rewrite Hs. exact Hm.
+  - apply (IH _ Q s), H.
+  - apply (IH Q s), H.
+  - destruct (pop "tmp"%string (o_fresh o)) as [x ss].
+    specialize (H x). unfold after in H. destruct (step s (EvFresh x)) as [s1|] eqn:Hs; [|contradiction].
+    match goal with |- context [run_crash (k x) ?w1 ?o1 n] => specialize (IH x Q s1 w1 o1 n H); destruct (run_crash (k x) w1 o1 n) as [[[w' o''] tr] b] end.
+    destruct IH as (s' & Hm). exists s'. cbn [mon_run]. rewrite Hs. exact Hm.
+  - unfold after in H. destruct (step s (EvMark t pl)) as [s1|] eqn:Hs; [|contradiction].
+    specialize (IH Q s1 w o n H). destruct (run_crash k w o n) as [[[w' o''] tr] b].
+    destruct IH as (s' & Hm). exists s'. cbn [mon_run]. rewrite Hs. exact Hm.
+Qed.
